@@ -17,7 +17,7 @@ META = {
     "functions": ["backend.linalg.qr_r (custom JVP)", "util.cholesky_util.* (via the kernels)", "*LatentCond.marginalise/revert",
                   "*Normal.std", "solver/solver_mle.step"],
     "bounds": {"quick": "jax.jvp of the real function along an ARBITRARY symbolic direction of ALL array inputs at an arbitrary "
-                        "symbolic point: qr_r on 2x1, 2x2, 3x2 and 4x2 matrices; marginalise / revert / std of the dense, "
+                        "symbolic point: qr_r on 2x1, 2x2, 3x2 and 4x2 matrices; marginalise / revert / std / whitened residual RMS of the dense, "
                         "isotropic and block-diagonal kernels (n=2, d=1; n=1 observed); one solver step (q=1, d=1, TS0 and TS1, "
                         "uncalibrated; MLE in the thorough tier) differentiated w.r.t. the field coefficients, the state (mean and "
                         "factor), the prior noise factor, time and the step",
@@ -37,7 +37,7 @@ META = {
 def cases(tier):
     out = ["rule/2x1", "rule/2x2", "rule/3x2", "rule/4x2"]
     for ssm in cm.SSMS:
-        out += [f"marginalise/{ssm}/d1", f"revert/{ssm}/d1", f"std/{ssm}/d1"]
+        out += [f"marginalise/{ssm}/d1", f"revert/{ssm}/d1", f"std/{ssm}/d1", f"rms/{ssm}/d1"]
     for ssm in cm.SSMS:
         out += [f"step/{ssm}/none/ts0"]
     if tier == "thorough":
@@ -152,7 +152,7 @@ def build(case_id):
             return R, R.T @ R
         return make_case(case_id, theta, f, ["the triangular factor R", "R^T R"])
     ssm = parts[1]
-    if kind in ("marginalise", "revert", "logpdf", "std"):
+    if kind in ("marginalise", "revert", "logpdf", "std", "rms"):
         d = int(parts[2][1:])
         n = 2
         cfg = sc.Cfg(ssm=ssm, q=n - 1, d=d)
@@ -166,7 +166,7 @@ def build(case_id):
             th = {"rv": cm.sym_rv(dom, ssm, n, d, "r")}
             if kind in ("marginalise", "revert"):
                 th["cond"] = cm.sym_cond(dom, ssm, n, 1, d, "k", scal="one")
-            if kind == "logpdf":
+            if kind in ("logpdf", "rms"):
                 th["u"] = sym_array(dom, "u", cm.rv_shapes(ssm, n, d)[0])
             return th
 
@@ -177,6 +177,9 @@ def build(case_id):
                 return (jnp.stack([jnp.ravel(s) for s in rv.std]),)
             if kind == "logpdf":
                 return (rv.logpdf_flat(th["u"]),)
+            if kind == "rms":
+                r = rv.residual_whitened_rms_flat(th["u"])
+                return (jnp.ravel(r) ** 2,)
             A, b, Q, tl, to = th["cond"]
             cond = Cond(A, Normal(b, Q, tf1), to_latent=tl, to_observed=to)
             if kind == "marginalise":
@@ -188,6 +191,7 @@ def build(case_id):
             return (obs.mean_flat, _gram(ssm, obs.cholesky_flat), back.A, back.noise.mean_flat,
                     _gram(ssm, back.noise.cholesky_flat))
         labels = {"std": ["the standard deviations"], "logpdf": ["the log-density"],
+                  "rms": ["the squared whitened residual RMS (MLE / dynamic scale estimate)"],
                   "marginalise": ["the marginal mean", "the marginal covariance"],
                   "revert": ["the observed mean", "the observed covariance", "the gain", "the posterior offset",
                              "the posterior covariance"]}[kind]
